@@ -22,9 +22,16 @@ def events_of(base, chk, fname, variant="distinct"):
             continue
         evs = []
         inside = []
+        held = []
         for ev in p.log:
             if ev[0] == "once":
                 pass
+            elif ev[0] == "lock":
+                m_ = ex.meta.get(ev[1])
+                held.append(m_.name if m_ is not None and m_.kind == "global" else "(non-global mutex)")
+            elif ev[0] == "unlock":
+                if held:
+                    held.pop()
             elif ev[0] == "once_begin":
                 # only a package-level sync.Once orders goroutines; a Once that lives in a local or in an argument does not
                 nm = ex.meta[ev[1]].name if ex.meta[ev[1]].kind == "global" else "(non-global Once)"
@@ -36,7 +43,7 @@ def events_of(base, chk, fname, variant="distinct"):
             elif ev[0] in ("r", "w"):
                 m = ex.meta.get(ev[1])
                 if m is not None and m.kind == "global":
-                    e = ("acc", ev[0], m.name, tuple(inside))
+                    e = ("acc", ev[0], m.name, tuple(inside), tuple(h_ for h_ in held if h_ != "(non-global mutex)"))
                     if not evs or evs[-1] != e:
                         evs.append(e)
         # calls of Do that did not run the initialiser (already done) are logged as ('once', obj, path, True)
@@ -62,7 +69,14 @@ def analyse(base, chk, fname, variant="distinct"):
                 done.add(e[1])
             elif e[0] == "acc":
                 kind, g, inside = e[1], e[2], e[3]
+                locks = e[4] if len(e) > 4 else ()
                 real = [o for o in inside if o != "(non-global Once)"]
+                summary.setdefault("lock_acc", {}).setdefault(g, []).append((kind, tuple(locks)))
+                if kind == "w" and not real and locks:
+                    # rewritten under a package-level mutex: race-free iff every access to g, in every operation, holds that
+                    # mutex (checked across all operations after the sweep)
+                    summary.setdefault("mutex_writes", {}).setdefault(g, set()).update(locks)
+                    continue
                 if kind == "w":
                     # lazily built package-level data: written only inside the initialiser of a package-level Once
                     if real:
@@ -105,6 +119,8 @@ def analyse(base, chk, fname, variant="distinct"):
     chk.fact("%s: arguments other than the receiver (values another goroutine may be reading), slice arguments and their elements are only read" % label, not wr2, [fname], "effects", detail=str(wr2[:3]))
     chk.fact("%s: the only package-level writes happen inside the initialiser of a package-level sync.Once (lazily built tables)" % label, not summary["writes_outside_once"], [fname], "effects", detail=str(summary["writes_outside_once"][:3]))
     chk.extra.setdefault("events", {})[fname + (" [shared]" if variant == "shared" else "")] = dict(once=sorted(summary["once"]), globals_read=sorted(summary["globals_read"]), paths=len(traces),
+                                                       mutex_writes={g: sorted(v) for g, v in summary.get("mutex_writes", {}).items()},
+                                                       lock_acc={g: sorted({(k_, l_) for k_, l_ in v}) for g, v in summary.get("lock_acc", {}).items()},
                                                        guards={g: sorted(v) for g, v in summary["guards"].items()}, reads={g: [list(x) for x in {tuple(y) for y in v}] for g, v in summary["reads"].items()},
                                                        pre_access=sorted(set(summary["table_access_before_do"])), writes_outside=sorted(set(summary["writes_outside_once"])))
     return summary
@@ -219,6 +235,19 @@ def run(chk):
         if n:
             chk.fact("%s: lazily built package-level data is read only after the Once.Do that builds it has returned (program order, every path)" % fn_.replace("filippo.io/edwards25519", "ed"),
                      not bad, [fn_.split(" [")[0]], "effects", detail=str(bad[:3]))
+    # mutex-protected package-level data: every access (read or write, any operation) must hold one common mutex
+    mw = {}
+    for fn_, ev in events.items():
+        for g, ls in ev.get("mutex_writes", {}).items():
+            mw.setdefault(g, set()).update(ls)
+    for g, ls in sorted(mw.items()):
+        unprotected = []
+        for fn_, ev in events.items():
+            for k_, held_ in ev.get("lock_acc", {}).get(g, []):
+                if not (set(held_) & ls):
+                    unprotected.append((fn_.split(").")[-1], k_))
+        chk.fact("package-level %s is rewritten by operations under a mutex: every access to it, in every operation, holds that mutex (%s)" % (g.split(".")[-1], sorted(x.split(".")[-1] for x in ls)),
+                 not unprotected, [], "effects", detail=str(unprotected[:4]))
     multi = {g.split(".")[-1]: sorted(o.split(".")[-1] for o in v) for g, v in guard.items() if len(v) != 1}
     chk.fact("lazily built package-level data found: %s; each is written under exactly one package-level Once (an object filled by the initialisers of two different Once values can be written twice, the second time after publication)"
              % sorted(g.split(".")[-1] for g in guard), not multi, [], "effects", detail=str(multi))
